@@ -39,6 +39,17 @@ var caseHeader = []string{
 	"Definition pk_selftest : bool := (bytes_eqb (pk 9 (0x01020304050607 :: 0x0809ff00000000 :: nil)%uint63) (1 :: 2 :: 3 :: 4 :: 5 :: 6 :: 7 :: 8 :: 9 :: nil)%N && bytes_eqb (pk 0 nil) nil && bytes_eqb (pk 3 (0xfffe8000000000 :: nil)%uint63) (255 :: 254 :: 128 :: nil)%N)%bool.",
 }
 
+// wireHeader: the same, over the composed model (C05 names live in module A there)
+var wireHeader = func() []string {
+	h := append([]string{}, caseHeader...)
+	for i, l := range h {
+		if l == "From Model Require Import C05_AdSignature." {
+			h[i] = "From Model Require Import Compose_C05_C13."
+		}
+	}
+	return h
+}()
+
 func coqBytes(b []byte) string {
 	if len(b) == 0 {
 		return "(pk 0 [])"
